@@ -30,7 +30,7 @@ RULE = ("(9 hand-written graph shapes + every typed DAG with <= 4/5 nodes over {
 ASSUMPTIONS = ["reference evaluator harness/graphs.py:ref_eval for the isolation clause",
                "ContentException: weaker reading (see LEVEL_NOTE)"]
 BOUNDS = {"quick": {"max_faults": 2, "generated_shapes_max_nodes": 4}, "thorough": {"max_faults": 3, "generated_shapes_max_nodes": 5}}
-CAP_S = {"quick": 150, "thorough": 1500}
+CAP_S = {"quick": 300, "thorough": 3000}
 
 KINDS = ["skip", "content", "cpe", "timeout", "error", "uneq", "badstr", "blacklisted"]
 
